@@ -6,7 +6,7 @@ set -u
 P=$(readlink -f "$1"); PROP=$2; B=${3:-25}
 mkdir -p /tmp/mine
 WT=$(mktemp -d /tmp/mine/mutwt.XXXX)
-git -C /repo worktree add -q --detach $WT/wt HEAD || exit 2
+git -C /repo worktree add -q --detach $WT/wt ${BASE:-HEAD} || exit 2
 trap 'git -C /repo worktree remove --force $WT/wt; rm -rf $WT' EXIT
 git -C $WT/wt apply "$P" || { echo "patch does not apply"; exit 2; }
 cd /verif && VERIF_REPO=$WT/wt VERIF_TMP=/tmp/mine VERIF_EVIDENCE_DIR=/tmp/mine/evidence VERIF_REPLAY_DIR=/tmp/mine/replays.$$ VERIF_BUDGET=$B bin/check $PROP quick 2>&1 | grep -E "^(VIOLATION|OK|TROUBLE|KNOWN|REPLAY|explored|  under|  in every|  run alone)" | cut -c1-300 | head -20
